@@ -357,6 +357,26 @@ func cliKey(r Res) string {
 	return fmt.Sprintf("ok=%v|out=%q|err=%q|panic=%v", r.OK, r.Out, r.Err, r.Panic != "")
 }
 
+// mayReadClock: the template may legitimately hand the exact word "now" to a date
+// conversion (the statement's exception): it contains that word, or it can lower-case a
+// binding such as "Now" / "NOW".
+func mayReadClock(cs *C02Case) bool {
+	if strings.Contains(cs.Source, "now") {
+		return true
+	}
+	if strings.Contains(cs.Source, "downcase") {
+		for _, v := range cs.Env.Vals {
+			if strings.Contains(strings.ToLower(mustJSON(v)), "now") {
+				return true
+			}
+		}
+		if strings.Contains(strings.ToLower(cs.Source), "now") {
+			return true
+		}
+	}
+	return false
+}
+
 // c02Plan: the canonical execution plus one variation per dimension, plus combos.
 func c02Plan(r *Rng, cs *C02Case) (canon *C02Exec, vars []struct {
 	dim string
@@ -391,7 +411,7 @@ func c02Plan(r *Rng, cs *C02Case) (canon *C02Exec, vars []struct {
 		wk := wk
 		add("entry-point", func(e *C02Exec) { e.EP, e.Writer = pick(r, []int{EPFRender, EPParseAndFRender}), wk })
 	}
-	if !strings.Contains(cs.Source, "now") {
+	if !mayReadClock(cs) {
 		add("clock", func(e *C02Exec) { e.Jump = int64(r.Range(1, 400000000)) })
 	}
 	if cs.EnvOnly {
@@ -409,7 +429,7 @@ func c02Plan(r *Rng, cs *C02Case) (canon *C02Exec, vars []struct {
 			e.EP = r.Intn(NumEP)
 			e.Writer = r.Intn(4)
 			e.Again = r.Chance(0.3)
-			if !strings.Contains(cs.Source, "now") && r.Chance(0.5) {
+			if !mayReadClock(cs) && r.Chance(0.5) {
 				e.Jump = int64(r.Range(1, 400000000))
 			}
 		})
@@ -437,8 +457,9 @@ func c02Find(c *Ctx, cs *C02Case, r *Rng, out *CaseOut, wantSig string) []c02Fai
 		}
 	}
 	base := x.exec(canon)
+	hasPtr := nestedPtrFree(cs) != nil
 	if c != nil {
-		c.logf("canon: %s", addrRe.ReplaceAllString(base.Key(), "0xADDR"))
+		c.logf("canon: %s", digestKey(hasPtr, base.Key()))
 	}
 	out.Evals++
 	if base.Panic != "" {
@@ -479,7 +500,7 @@ func c02Find(c *Ctx, cs *C02Case, r *Rng, out *CaseOut, wantSig string) []c02Fai
 		eb, _ := json.Marshal(v.ex)
 		if c != nil {
 			if v.ex.Order != simrt.OrderNative && !v.ex.CLI {
-				c.logf("%s %s: %s", v.dim, eb, addrRe.ReplaceAllString(res.Key(), "0xADDR"))
+				c.logf("%s %s: %s", v.dim, eb, digestKey(hasPtr, res.Key()))
 			}
 			c.count("fault:"+v.dim, 1)
 			c.count("map_iterations_controlled", int64(simrt.MapIterations()))
@@ -527,6 +548,19 @@ func c02Find(c *Ctx, cs *C02Case, r *Rng, out *CaseOut, wantSig string) []c02Fai
 }
 
 var hexRun = regexp.MustCompile(`[0-9a-fA-FxX]+`)
+var longHexRun = regexp.MustCompile(`[0-9a-fA-FxX]{5,}`)
+
+// digestKey is what goes into the event-log digest (the simulator's own determinism
+// check) for a result: exact, except for cases whose bindings contain pointers below
+// the top level -- there printed heap addresses (possibly mangled by later filters:
+// upcase, remove_first, replace) differ between processes, so long hex-ish runs are
+// blanked. The oracle itself always compares exact keys.
+func digestKey(hasNestedPtr bool, key string) string {
+	if hasNestedPtr {
+		return longHexRun.ReplaceAllString(key, "H")
+	}
+	return addrRe.ReplaceAllString(key, "0xADDR")
+}
 
 // sameSkeleton: the two strings differ only inside runs of hex-ish characters.
 func sameSkeleton(a, b string) bool {
